@@ -48,6 +48,13 @@ def configs(tier, seed):
             for side in ("ccube", "xcube"):
                 out.append(C03._base(2, dims, 2, [(i + d) % 2 for d in range(3)], agg, weights=["none", "array"][i % 2],
                                      ignore=bool(i % 2), fmt="nan", fact="nan", K=1, side=side))
+    # an extra axis of extent 1 beside a longer one (its coordinates never change from one sub-cube to the next)
+    for dims in ([[2], [1]], [[1], [2]]):
+        for agg in ("count", "mean"):
+            i += 1
+            for side in ("ccube", "xcube"):
+                out.append(C03._base(2, dims, 2, [i % 2, (i + 1) % 2], agg, weights=["none", "array"][i % 2], ignore=bool(i % 2),
+                                     fmt="nan", fact="nan", K=1, side=side))
     if tier == "thorough":
         for dims in ([[2], [2], []], [[2], [], [3]]):
             for side in ("ccube", "xcube"):
